@@ -85,45 +85,9 @@ pub fn truncate_noschema<T: Fam, S: Src>(s: &mut S) {
     }
 }
 
-/// C08 (writer): a hard failure after `fail_at` accepted bytes, with short writes of at most `chunk` bytes and an
-/// optional failing flush: save returns Err iff a fault occurred; accepted bytes are a prefix of the fault-free
-/// output; without a fault the bytes do not depend on the chunking.
-pub fn fault_write<T: Fam, S: Src>(s: &mut S) {
-    let v = T::sym(s);
-    let mut good: Vec<u8> = Vec::with_capacity(64);
-    assert!(savefile::save_noschema(&mut good, T::VERSION, &v).is_ok());
-    let mut w = FaultWriter::new();
-    w.fail_at = s.usize();
-    w.chunk = s.usize();
-    s.assume(w.chunk >= 1 && (w.chunk <= 3 || w.chunk == usize::MAX));
-    w.flush_fails = s.bool();
-    w.kind = if s.bool() { ErrorKind::Other } else { ErrorKind::BrokenPipe };
-    let r = savefile::save_noschema(&mut w, T::VERSION, &v);
-    let fault_expected = w.fail_at < good.len() || w.flush_fails;
-    assert!(r.is_err() == fault_expected, "C08: Err iff the writer failed (no silent success, no spurious error)");
-    assert!(w.buf.len() <= good.len() && w.buf[..] == good[..w.buf.len()], "C08: accepted bytes are a prefix of the fault-free output");
-    if w.fail_at >= good.len() { assert!(w.buf == good, "C08: bytes independent of how the writer accepts them"); }
-}
-
-/// C08 (reader): the loaded value does not depend on how the reader chunks the data or on retryable
-/// Interrupted errors.
-pub fn chunk_read<T: Fam, S: Src>(s: &mut S) {
-    let v = T::sym(s);
-    let mut good: Vec<u8> = Vec::with_capacity(64);
-    assert!(savefile::save_noschema(&mut good, T::VERSION, &v).is_ok());
-    let mut rd = ChunkReader::new(&good);
-    rd.chunk = s.usize();
-    s.assume(rd.chunk >= 1 && (rd.chunk <= 3 || rd.chunk == usize::MAX));
-    rd.interrupt_mask = s.u32();
-    s.assume(rd.interrupt_mask & 0xffff_ff00 == 0);
-    match savefile::load_noschema::<T>(&mut rd, T::VERSION) {
-        Ok(b) => { assert!(same(&b, &v, T::VERSION), "C08: result independent of chunking"); assert!(rd.pos == good.len()); }
-        Err(_) => assert!(false, "C08: chunked / interrupted reads of intact data must load"),
-    }
-}
-
 /// C06 for fixed-size targets: arbitrary bytes of the exact encoded size (and any shorter length) never panic;
-/// a returned value is a valid value (re-encodes to exactly the consumed bytes => bool/char/enum tags valid).
+/// a returned value is a valid value of its type (no invalid bool / char bit patterns, enum tags in range)
+/// and it never consumed more than the input held.
 pub fn malformed_fixed<T: Fam, S: Src, const N: usize>(s: &mut S) {
     let bytes: [u8; N] = s.bytes::<N>();
     let len = s.usize();
@@ -131,8 +95,48 @@ pub fn malformed_fixed<T: Fam, S: Src, const N: usize>(s: &mut S) {
     let mut rd: &[u8] = &bytes[..len];
     let r = Deserializer::bare_deserialize::<T>(&mut rd, T::VERSION);
     if let Ok(v) = r {
-        let back = ref_bytes(&v, T::VERSION);
+        assert!(v.ok(), "C06: a returned value is a valid value of its type");
         let used = len - rd.len();
-        assert!(back.len() == used && back[..] == bytes[..used], "C06: a returned value is a valid value of its type");
+        assert!(ref_bytes(&v, T::VERSION).len() == used, "C06: consumed exactly the encoding of the returned value");
+    }
+}
+
+/// C08 (writer, short writes): a writer that accepts CHUNK bytes per call gets exactly the fault-free bytes.
+pub fn short_write<T: Fam, S: Src, const CHUNK: usize>(s: &mut S) {
+    let v = T::sym(s);
+    let mut good: Vec<u8> = Vec::with_capacity(96);
+    assert!(savefile::save_noschema(&mut good, T::VERSION, &v).is_ok());
+    let mut w = FaultWriter::new();
+    w.chunk = CHUNK;
+    let r = savefile::save_noschema(&mut w, T::VERSION, &v);
+    assert!(r.is_ok(), "C08: short writes are not failures");
+    assert!(w.written() == &good[..], "C08: bytes independent of how the writer accepts them");
+}
+
+/// C08 (writer, hard failure at byte offset AT, bounded stand-in: one offset per harness instance): save returns
+/// Err and what was accepted is a prefix of the fault-free output.
+pub fn fail_write<T: Fam, S: Src, const AT: usize>(s: &mut S) {
+    let v = T::sym(s);
+    let mut good: Vec<u8> = Vec::with_capacity(96);
+    assert!(savefile::save_noschema(&mut good, T::VERSION, &v).is_ok());
+    let mut w = FaultWriter::new();
+    w.fail_at = AT;
+    let r = savefile::save_noschema(&mut w, T::VERSION, &v);
+    let e = r.is_err();
+    core::mem::forget(r);
+    assert!(e == (AT < good.len()), "C08: Err iff the writer failed");
+    assert!(w.len <= good.len() && w.written() == &good[..w.len], "C08: accepted bytes are a prefix of the fault-free output");
+}
+
+/// C08 (reader): the loaded value does not depend on how the reader chunks the data (CHUNK bytes per call).
+pub fn chunked_read<T: Fam, S: Src, const CHUNK: usize>(s: &mut S) {
+    let v = T::sym(s);
+    let mut good: Vec<u8> = Vec::with_capacity(96);
+    assert!(savefile::save_noschema(&mut good, T::VERSION, &v).is_ok());
+    let mut rd = ChunkReader::new(&good);
+    rd.chunk = CHUNK;
+    match savefile::load_noschema::<T>(&mut rd, T::VERSION) {
+        Ok(b) => { assert!(same(&b, &v, T::VERSION), "C08: result independent of chunking"); assert!(rd.pos == good.len()); }
+        Err(e) => { core::mem::forget(e); assert!(false, "C08: chunked reads of intact data must load"); }
     }
 }
